@@ -378,6 +378,21 @@ def bounded(K):
                             if sum(bo) != 1 or (sum(bi) == 1 and bo != bi) or (sum(bi) > 1 and any(o > i for o, i in zip(bo, bi))):
                                 bad.append({'fn': 'HDD', 'M': M, 'pattern': pat, 'out': out})
                                 break
+        # every order up to 256: empty, saturated (all M slots ON), nearly saturated and random symbols in one record
+        rng = np.random.default_rng(2)
+        for M in ORDERS:
+            syms = [np.zeros(M, int), np.ones(M, int), np.r_[np.ones(M - 1, int), 0], np.r_[0, np.ones(M - 1, int)], (rng.random(M) < 0.5).astype(int), np.eye(M, dtype=int)[M // 3]]
+            pat = [int(x) for x in np.concatenate(syms)]
+            for seed in (0, 1):
+                n += 1
+                seen.add(('hdd-saturated', M, seed))
+                np.random.seed(seed)
+                out = list(map(int, ppm.HDD(pat, M).data))
+                for s_ in range(len(syms)):
+                    bi, bo = pat[s_ * M:(s_ + 1) * M], out[s_ * M:(s_ + 1) * M]
+                    if sum(bo) != 1 or (sum(bi) == 1 and bo != bi) or (sum(bi) > 1 and any(o > i for o, i in zip(bo, bi))):
+                        bad.append({'fn': 'HDD', 'M': M, 'symbol': ['empty', 'all ON', 'all ON but the last', 'all ON but the first', 'random', 'codeword'][s_], 'ON slots in': int(sum(bi)), 'ON slots out': int(sum(bo))})
+                        break
         rng = np.random.default_rng(1)
         for M in ORDERS:
             k = M.bit_length() - 1
